@@ -429,6 +429,77 @@ func (m *machine) apply(o Op) (skip bool, err error) {
 		m.model[x] = xv.Merge(other)
 		m.rederive(x)
 		return false, m.run(fmt.Sprintf("%s = %s + %s", x, x, other.Src()))
+	case "emptyplus": // x = {} + y / x = [] + y: the accumulator idiom; x is a new container
+		if !yok || x == y || (yv.K != val.Arr && yv.K != val.Map) {
+			return true, nil
+		}
+		if big(yv) {
+			m.nt = true
+		}
+		m.model[x] = yv.Copy()
+		m.derive(x, y)
+		if big(yv) && yv.K == val.Arr {
+			m.spare[m.store[x]] = true // built by append: may have room after its end (K-C06-2)
+		}
+		if yv.K == val.Map {
+			return false, m.run(fmt.Sprintf("%s = {} + %s", x, y))
+		}
+		return false, m.run(fmt.Sprintf("%s = [] + %s", x, y))
+	case "setcont": // x[i] = <container>: the target is copied first (a container stored into a shared one must not build a cycle), whatever its size
+		if !xok || (xv.K != val.Arr && xv.K != val.Map) || (xv.K == val.Arr && len(xv.A) == 0) {
+			return true, nil
+		}
+		var cv val.V
+		csrc := ""
+		from := ""
+		switch o.R % 4 {
+		case 0:
+			cv, csrc = val.A(), "[]"
+		case 1:
+			cv, csrc = val.M(), "{}"
+		case 2:
+			cv = val.A(val.I(int64(o.V)))
+			csrc = cv.Src()
+		default:
+			if !yok || x == y || (yv.K != val.Arr && yv.K != val.Map) {
+				return true, nil
+			}
+			cv, csrc, from = yv.Copy(), y, y
+		}
+		if big(xv) {
+			m.markMutation(x)
+		}
+		var target string
+		if xv.K == val.Arr {
+			i := o.N % len(xv.A)
+			nv := xv.Copy()
+			nv.A[i] = cv
+			m.model[x] = nv
+			target = fmt.Sprintf("%s[%d]", x, i)
+		} else {
+			k := keys[o.N%len(keys)]
+			m.model[x] = xv.Set(val.S(k), cv)
+			target = fmt.Sprintf("%s[%q]", x, k)
+		}
+		inner := m.inner[x]
+		var fromIDs map[int]bool
+		if from != "" {
+			fromIDs = m.ids(from)
+		}
+		m.fresh(x)
+		if len(inner)+len(fromIDs) > 0 {
+			m.inner[x] = map[int]bool{}
+			for id := range inner {
+				m.inner[x][id] = true
+			}
+			for id := range fromIDs {
+				m.inner[x][id] = true
+			}
+		}
+		if big(m.model[x]) && m.model[x].K == val.Arr {
+			m.spare[m.store[x]] = true // the copy is made by append: may have room after its end (K-C06-2)
+		}
+		return false, m.run(target + " = " + csrc)
 	case "bareplus": // x + y as a bare expression must not modify anything
 		if !xok || !yok || xv.K != yv.K || (xv.K != val.Arr && xv.K != val.Map) {
 			return true, nil
@@ -580,7 +651,7 @@ func (m *machine) trackRep(o Op) {
 }
 
 var opKinds = []string{"bindarr", "bindarr", "bindmap", "copy", "copy", "copy", "wraparr", "wrapmap", "unwrap", "setidx", "setidx", "setkey", "setkey", "delkey",
-	"appendself", "appendfrom", "mergemap", "bareplus", "slice", "rest", "passmut", "passgrow", "loopmut", "elemincr"}
+	"appendself", "appendfrom", "mergemap", "emptyplus", "setcont", "setcont", "bareplus", "slice", "rest", "passmut", "passgrow", "loopmut", "elemincr"}
 
 var sizes = []int{0, 1, 3, 4, 5, 7, 8, 9, 10, 12, 20}
 
